@@ -16,6 +16,19 @@ CHECKS = {
     'C02': ('codec_exec', 'exploration', 'runtime oracle: independent tokenizer recomputes preamble order, BodyLength, CheckSum, token syntax, section order, position order and group structure of every encoded message',
             'Same generator as C01 with shuffled insertion order; both encode(f8String&) and encode(char**) paths; every clause of the statement is recomputed from the bytes and the independent schema model.',
             'Schema position order = document order with components expanded (independent model).', '3 C02'),
+    'C03': ('codec_exec', 'exploration', 'sanitizers (ASan+UBSan) + exception-type oracle + per-case watchdog over structure-aware hostile inputs to the factory (4 mode combinations) and oversized values into both encode entry points',
+            'Tens of thousands of mutated messages per run (17 mutation operators aimed at tag/value lengths, separators, counts, Length fields, the preamble, short inputs, binary bytes) are fed '
+            'as exact-size heap strings; every outcome must be a message or an f8Exception. Encoding is driven with values of 1..20000 bytes, with sizes aimed at the limit. '
+            'One recorded finding: messages whose encoding exceeds the maximum message length overflow the output buffer.',
+            'Inputs <= 8192 bytes; red zones catch adjacent overflows only; leaks are not checked.', '3 C03'),
+    'C04': ('codec_exec', 'exploration', 'runtime oracle: independent conformance predicate (schema model) decides each generated input; strict factory verdict and decoded content compared with it',
+            'Reference-rendered messages with one of 19 injected defect classes (unknown/misplaced tags incl. after the last mandatory field, duplicates, missing mandatory fields, '
+            'elements without their first field, tags >= 65536, wrong checksum, leading-zero numerics). Non-conforming input must throw; accepted input must decode to exactly the input tokens.',
+            'Only the stated direction (non-conforming => throws; accepted => faithful). Field order and group-count agreement are not among the stated conditions.', '3 C04'),
+    'C05': ('codec_exec', 'exploration', 'runtime oracle: strict decoding of the clean message as reference for known fields; token-multiset equality of the re-encoding with the input',
+            'Conforming messages with 1..3 dictionary-unknown tokens inserted at 8 kinds of place (header, section boundaries, body, trailer, between/inside/after group elements) must be accepted '
+            'in permissive mode, decode every known field as strict mode does, and re-encode to exactly the input tokens with a valid frame.',
+            'Where unknown fields are re-emitted is not prescribed (multiset comparison).', '3 C05'),
     'C06': ('codec_exec', 'exploration', 'runtime oracle: every Length/data pair of both schemas x payload classes, through the API round trip and through reference-rendered bytes, under ASan+UBSan',
             'All pairs the independent schema model finds (header, body, trailer, groups) are exercised with printable, SOH, "=", SOH+"10=", high-bit, NUL, 1-byte and 2047-byte payloads; '
             'the payload and all following fields must decode identically. One recorded finding (NUL truncation).',
